@@ -639,6 +639,24 @@ func isUnknownIdentOK(cond ssa.Value, al map[ssa.Value]bool, neg bool) bool {
 	} else if neg {
 		return false
 	}
+	// a predicate of the module that is exactly that assertion: func(err error) bool { _, ok := err.(*ErrUnknownIdentifier); return ok }
+	if c, isCall := cond.(*ssa.Call); isCall && len(c.Call.Args) == 1 && al[c.Call.Args[0]] {
+		if g := c.Call.StaticCallee(); g != nil && inModule(g) && len(g.Params) == 1 && len(g.Blocks) > 0 {
+			n := 0
+			for _, b := range g.Blocks {
+				ret, isRet := b.Instrs[len(b.Instrs)-1].(*ssa.Return)
+				if !isRet {
+					continue
+				}
+				n++
+				if len(ret.Results) != 1 || !isUnknownIdentOK(ret.Results[0], map[ssa.Value]bool{g.Params[0]: true}, false) {
+					return false
+				}
+			}
+			return n > 0
+		}
+		return false
+	}
 	ex, ok := cond.(*ssa.Extract)
 	if !ok || ex.Index != 1 {
 		return false
